@@ -58,11 +58,11 @@ for line in PLAN.strip().splitlines():
     if only and commit not in only:
         continue
     subprocess.run(["git", "-C", "/repo", "checkout", "--", "."], check=True)
-    patch = subprocess.run(["git", "-C", "/repo", "show", commit], capture_output=True, text=True).stdout
-    subj = subprocess.run(["git", "-C", "/repo", "log", "-1", "--format=%s", commit], capture_output=True, text=True).stdout.strip()
-    p = subprocess.run(["git", "-C", "/repo", "apply", "-R", "--3way"], input=patch, capture_output=True, text=True)
+    patch = subprocess.run(["git", "-C", "/repo", "show", commit], capture_output=True, text=True, errors="replace").stdout
+    subj = subprocess.run(["git", "-C", "/repo", "log", "-1", "--format=%s", commit], capture_output=True, text=True, errors="replace").stdout.strip()
+    p = subprocess.run(["git", "-C", "/repo", "apply", "-R", "--3way"], input=patch, capture_output=True, text=True, errors="replace")
     if p.returncode != 0:
-        p = subprocess.run(["git", "-C", "/repo", "apply", "-R"], input=patch, capture_output=True, text=True)
+        p = subprocess.run(["git", "-C", "/repo", "apply", "-R"], input=patch, capture_output=True, text=True, errors="replace")
     if p.returncode != 0:
         results.append((commit, props, "REVERT-FAILED", subj))
         print(commit, "cannot reverse-apply:", p.stderr[:200], flush=True)
@@ -70,7 +70,7 @@ for line in PLAN.strip().splitlines():
         continue
     subprocess.run(["git", "-C", "/repo", "reset", "-q"])
     for prop in props:
-        r = subprocess.run([os.path.join(ROOT, "check"), prop], capture_output=True, text=True, cwd=ROOT)
+        r = subprocess.run([os.path.join(ROOT, "check"), prop], capture_output=True, text=True, errors="replace", cwd=ROOT)
         m = re.search(r"VIOLATION property=%s replay=(\S+)" % prop, r.stdout)
         status = "CAUGHT" if (r.returncode == 1 and m) else "MISSED(exit %d)" % r.returncode
         if m:
